@@ -376,9 +376,48 @@ func goStatus(id uint64, s *Sched) string {
 func (s *Sched) resettle() {
 	for _, t := range s.Tasks {
 		if t.state == stLockBlocked || t.state == stSutSleep {
-			s.settle(t)
+			s.quickPoll(t)
 		}
 	}
+}
+
+// quickPoll gives a task that was seen blocked a chance to report. If the
+// last step released it, it runs (GOMAXPROCS is 1) until its next yield or
+// block while the scheduler goroutine yields the processor a few times. No
+// goroutine-status probe is made here: the task was positively identified as
+// blocked before, and a full stack dump per blocked task per step dominated
+// the run time. A deadlock verdict is confirmed with real probes (confirm).
+func (s *Sched) quickPoll(t *Task) {
+	for i := 0; i < 12; i++ {
+		select {
+		case r := <-t.report:
+			s.apply(t, r)
+			return
+		default:
+		}
+		runtime.Gosched()
+	}
+	select {
+	case r := <-t.report:
+		s.apply(t, r)
+	default:
+	}
+}
+
+// confirm re-examines every task believed to be blocked with a real probe.
+// It returns true when some task made progress (the caller re-evaluates).
+func (s *Sched) confirm() bool {
+	progress := false
+	for _, t := range s.Tasks {
+		if t.state == stLockBlocked || t.state == stSutSleep {
+			before := t.state
+			s.settle(t)
+			if t.state != before {
+				progress = true
+			}
+		}
+	}
+	return progress
 }
 
 // Run starts every task and schedules them until all are done or a verdict
@@ -424,6 +463,9 @@ func (s *Sched) Run() Verdict {
 		}
 		canAdvance := (sleepers > 0 || timers > 0) && locked == 0
 		if len(run) == 0 && !canAdvance {
+			if s.confirm() {
+				continue
+			}
 			if sleepers == 0 && timers == 0 {
 				return VerdictDeadlock
 			}
